@@ -1,8 +1,9 @@
 """C16 — print() emits its text verbatim with references replaced by current values."""
 from core import run_cases
 
-MODULES = ["Props.C16"]
-THEOREMS = ["Props.C16.c16_verbatim", "Props.C16.c16_verbatim_b", "Props.C16.c16_go", "Props.C16.wfB_sound", "Props.C16.c16_adjacent_fails"]
+MODULES = ["Props.C16", "Props.C16Tie"]
+THEOREMS = ["Props.C16.c16_verbatim", "Props.C16.c16_verbatim_b", "Props.C16.c16_go", "Props.C16.wfB_sound", "Props.C16.c16_adjacent_fails",
+            "Props.C16Tie.simple_name_class", "Props.C16Tie.text_class", "Props.C16Tie.ws_class", "Props.C16Tie.type_keywords"]
 
 TRIGGERS = {"adjacent-references": "adjacent-references"}
 
